@@ -173,7 +173,9 @@ def check(P, rep):
         exe = [e for e in effs if e.kind == 'xcall' and e.client == 'InterchainTokenExecutableClient']
         for e in exe:
             a = [core(x) for x in e.args]
-            okx = len(a) == 7 and dec('tokenId')(a[4]) and dec('amount')(a[6]) and (config_of(a[5]) or (None,))[0] == 'token_address' and dec('destinationAddress')(core(e.target))
+            origin = lambda t: find(t, lambda s_: s_[0] == 'field' and s_[1] == 'source_chain' and decode_call(s_[2], 'ReceiveFromHub') is not None) is not None
+            okx = len(a) == 7 and origin(a[0]) and a[1] == g.P(2) and dec('sourceAddress')(a[2]) and dec('data')(a[3]) and dec('tokenId')(a[4]) and dec('amount')(a[6]) \
+                and (config_of(a[5]) or (None,))[0] == 'token_address' and dec('destinationAddress')(core(e.target))
             rep.check(okx, 'C05.R5', 'executable-call:terms', 'the executable call goes to the decoded recipient with the decoded id, registered token and amount',
                       esite(g, e), e.describe()[:300])
             ok, _, w = mg(g, [e.node], [x.node for x in gives])
